@@ -34,6 +34,7 @@ import (
 	"strings"
 	"sync"
 	"time"
+	"verif/harness/props/catalog"
 
 	"verif/harness/internal/ev"
 	"verif/harness/internal/gw"
@@ -682,7 +683,55 @@ func (w *worker) recovered(fc *fcase, o *outcome) {
 // request that reads it later is served by code that may not expect it. After each accepted bucket-level write with
 // a mutated body the ordinary operations are run on that bucket: none may panic (recovered or not), kill
 // or wedge the gateway (a 5xx answer as such is an observation). The store is restored afterwards so that the cases that follow do not meet the setting.
+// adminAftermath: after every answered admin request (accepted or refused) the account store must still answer: a
+// request signed with an access key nobody knows, and the account listing, are answered within 8 s.
+func (w *worker) adminAftermath(fc *fcase, o *outcome) {
+	if fc.entry.Level != catalog.LvlAdmin || o.res == nil || o.res.err != nil || o.res.status == 0 || o.wr.method != "PATCH" {
+		return
+	}
+	c := w.c
+	c.Add("admin_aftermath_runs", 1)
+	unknown := w.cl.With("AKIAC20NOBODYKNOWS", "no-such-secret-1")
+	for _, pr := range []struct {
+		name string
+		run  func() *s3c.Resp
+	}{
+		{"request-with-unknown-access-key", func() *s3c.Resp {
+			return unknown.Do(&s3c.Req{Method: "GET", Path: "/", FreshConn: true, Watchdog: 8 * time.Second})
+		}},
+		{"list-users", func() *s3c.Resp {
+			return w.cl.Do(&s3c.Req{Method: "PATCH", Path: "/list-users", FreshConn: true, Watchdog: 8 * time.Second})
+		}},
+	} {
+		r := pr.run()
+		c.Eval(1)
+		if r.Err == nil {
+			continue
+		}
+		if !w.g.Alive() || w.g.WaitExit(2*time.Second) {
+			d := w.detail(fc, o, map[string]any{"followup": pr.name})
+			if cr := scrape(w.g); cr != nil {
+				d["crash"] = cr
+			}
+			c.Violation("aftermath:admin:"+fc.entry.Op+":gateway-died", fc.id, d)
+			w.fatal = fmt.Errorf("gateway died in admin aftermath")
+			return
+		}
+		c.Violation(fmt.Sprintf("aftermath:admin:%s:answered-%d:%s-unanswered-within-8s", fc.entry.Op, o.res.status/100*100, pr.name), fc.id,
+			w.detail(fc, o, map[string]any{"followup": pr.name, "error": r.Err.Error(), "admin_answer": o.res.status}))
+		if err := w.restore(); err != nil {
+			w.fatal = err
+		}
+		return
+	}
+	c.Distinct(fmt.Sprintf("admin-aftermath|%s|%dxx", fc.entry.Op, o.res.status/100))
+}
+
 func (w *worker) aftermath(fc *fcase, o *outcome) {
+	w.adminAftermath(fc, o)
+	if w.fatal != nil {
+		return
+	}
 	if o.res == nil || o.res.err != nil || o.res.status < 200 || o.res.status > 299 || o.wr.method == "GET" || o.wr.method == "HEAD" {
 		return
 	}
@@ -1061,7 +1110,7 @@ func Run(c *ev.Ctx) int {
 	wedgeDone := make(chan struct{})
 	go func() { defer close(wedgeDone); wedgeLane(c); policyCostLane(c) }()
 	recvDone := make(chan struct{})
-	go func() { defer close(recvDone); receiverLane(c) }()
+	go func() { defer close(recvDone); receiverLane(c); loggingLane(c) }()
 	mainLane(c, x, cases, nWorkers, dead)
 	<-wedgeDone
 	<-recvDone
